@@ -652,6 +652,22 @@ func (w *World) Do(s *Step) error {
 				return fmt.Errorf("harness: model-mismatch: rescan batch left the wallet ready=%v, the model says %v", ready, s.Done)
 			}
 		}
+	case "RemoveStepCrash":
+		// the process dies right after the k-th database commit of the removal the worker runs
+		base := w.DB.Commits()
+		db := w.DB
+		db.SetHooks(dbwrap.Hooks{AfterCommit: func(n int64, err error) {
+			if n-base == int64(s.K) {
+				db.Freeze()
+			}
+		}})
+		if _, err := w.workerStep(); err != nil && !db.Frozen() {
+			return err
+		}
+		if !db.Frozen() {
+			return fmt.Errorf("harness: model-mismatch: removal was to die after commit %d but made only %d commits", s.K, db.Commits()-base)
+		}
+		return w.Crash()
 	case "Crash":
 		return w.Crash()
 	case "Restart":
@@ -669,10 +685,8 @@ func (w *World) Do(s *Step) error {
 // image a kill -9 leaves: LevelDB hands every committed batch to the OS at commit).
 func (w *World) Crash() error {
 	w.DB.Freeze()
-	gatesMu.Lock()
-	delete(gates, w.H)
-	gatesMu.Unlock()
-	w.G.Open()
+	// the dead instance's goroutines stay parked at their gates for good: released, a worker whose
+	// task keeps failing on the frozen database would spin (and log) for the rest of the process
 	w.gen++
 	snap := filepath.Join(w.Dir, fmt.Sprintf("wallet-%d.db", w.gen))
 	// stop the dead instance's background compaction so that the directory is stable while it
